@@ -120,11 +120,11 @@ A  == <<97>>
 AB == <<97, 47, 98>>
 Ap(n, k, f) == [C0 EXCEPT !.op = "APPEND", !.name = n, !.cat = k, !.fl = f]
 Scenarios == <<
-  \* 1: five messages, sequence numbers differ from UIDs, the highest UID has been expunged
+  \* 1: every catalogue entry (the last one has no header field at all), sequence numbers differ from UIDs, the highest UID has been expunged
   << N1("CREATE", A), N1("CREATE", <<99>>),
      Ap(A, 1, <<":Seen">>), Ap(A, 2, <<":Deleted">>), Ap(A, 3, <<":DELETED", "kw1">>),
      Ap(A, 4, <<":Flagged", ":Answered">>), Ap(A, 5, <<":Draft", "KW2">>), Ap(A, 2, <<":Seen", "kw1">>),
-     Ap(A, 1, <<":Deleted">>), N1("SELECT", A),
+     Ap(A, 1, <<":Deleted">>), Ap(A, 6, <<>>), N1("SELECT", A),
      [C0 EXCEPT !.op = "STORE", !.set = << <<3, 3>> >>, !.sop = "del", !.fl = <<":deleted">>],
      Mk("EXPUNGE") >>,
   \* 2: three messages, nothing expunged, opened read-only
